@@ -43,8 +43,8 @@ func init() {
 		Controls: []string{"CtlStoreIntoCell", "CtlStoreIntoCellViaCallee"},
 		Run:      ruleIso4})
 	Register(&Rule{ID: "R-ISO-5", Props: []string{"C08", "C01"}, Floor: 24,
-		Doc:      "in every lib/query function that publishes a modified view (direct call of ViewMap.Set/Store, ReplaceTemporaryTable, SetTemporaryTable, or of a helper that does; the ten statement functions are frozen anchors) no return whose error may be non-nil is reachable after a publication call — cancellation returns (ConvertContextError(ctx.Err())) included: a library caller runs each statement under its own context, so a cancelled statement does not end the transaction. Error values are read edge-sensitively through Phi and result cells; the FileInfo attribute setters do not fail after their first field store and SetTableAttribute runs at most one setter per path. Single exemption with a checked side condition: results of RestoreHeaderReferences (Header.Update(_, nil) has no reachable non-nil return)",
-		Controls: []string{"CtlPublishThenFail", "CtlPublishInLoopThenFail", "CtlCancelBetweenPublications"},
+		Doc:      "in every lib/query function that publishes a modified view (direct call of ViewMap.Set/Store, ReplaceTemporaryTable, SetTemporaryTable, or of a helper that does; the ten statement functions are frozen anchors) no return whose error may be non-nil is reachable after a publication call — cancellation returns (ConvertContextError(ctx.Err())) included: a library caller runs each statement under its own context, so a cancelled statement does not end the transaction. Error values are read edge-sensitively through Phi and result cells; the FileInfo attribute setters do not fail after their first field store and SetTableAttribute runs at most one setter per path. Single exemption with a checked side condition: results of RestoreHeaderReferences (Header.Update(_, nil) has no reachable non-nil return: the function is evaluated under fields==nil — nil tests, len/cap, comparisons and boolean combinations of them, whether written in the branch, hoisted into a local or merged by &&/|| — and only the surviving returns are read)",
+		Controls: []string{"CtlPublishThenFail", "CtlPublishInLoopThenFail", "CtlCancelBetweenPublications", "CtlNilFieldsCanFail", "CtlNilFieldsGuardInverted"},
 		Run:      ruleIso5})
 	Register(&Rule{ID: "R-ISO-6", Props: []string{"C08", "C11"}, Floor: 1,
 		Doc:      "in every lib/query function that calls Container.CreateHandlerForCreate, each return with a possibly non-nil error that is reachable from the success edge of that call is preceded on every path by a call reaching Container.Close on the new handler (a failed CREATE TABLE leaves neither lock files nor a cache entry)",
@@ -2688,47 +2688,73 @@ func sideRestoreHeader(c *Ctx) bool {
 		c.Unknown(key, c.FnPos(hu), "Header.Update changed its signature")
 		return false
 	}
-	fields := hu.Params[2]
-	prune := func(from, to *ssa.BasicBlock) bool {
-		iff, ok := blockTerm(from).(*ssa.If)
-		if !ok || len(from.Succs) != 2 {
-			return false
-		}
-		x, neq, ok := core.NilCmp(iff.Cond)
-		if !ok || x != ssa.Value(fields) {
-			return false
-		}
-		// fields is nil: `fields != nil` is false, `fields == nil` is true
-		if neq {
-			return to == from.Succs[0]
-		}
-		return to == from.Succs[1]
+	n, bad, at := nilArgCannotFail(c, hu, hu.Params[2])
+	if bad != "" {
+		c.Bad(key, at, "Header.Update can return "+bad+" even when fields is nil: RestoreHeaderReferences can fail after a publication")
+		return false
 	}
-	seen := map[*ssa.BasicBlock]bool{hu.Blocks[0]: true}
-	st := []*ssa.BasicBlock{hu.Blocks[0]}
-	uidx := core.ErrorResultIndex(hu)
-	n := 0
-	for len(st) > 0 {
-		b := st[len(st)-1]
-		st = st[:len(st)-1]
-		if r, ok := blockTerm(b).(*ssa.Return); ok {
-			n++
-			for _, v := range core.ReturnOperand(r, uidx) {
-				if core.ClassifyNil(v, r) != core.IsNil {
-					c.Bad(key, c.Pos(r), "Header.Update can return "+valueLabel(v)+" even when fields is nil: RestoreHeaderReferences can fail after a publication")
-					return false
+	c.OkN(key, c.FnPos(rh), fmt.Sprintf("RestoreHeaderReferences returns Header.Update(_, nil); with the edges refuted by fields==nil removed, the %d reachable return(s) of Header.Update return nil", n), n)
+
+	// the same lemma on the control package: every function of it that is called
+	// there with a nil constant for a slice parameter and has an error result
+	seenCtl := map[string]bool{}
+	for _, caller := range c.P.FuncsIn(true) {
+		for _, call := range core.Calls(caller) {
+			f := core.StaticCallee(call)
+			if f == nil || !c.P.IsControl(f) || len(f.Blocks) == 0 || core.ErrorResultIndex(f) < 0 {
+				continue
+			}
+			for i, a := range call.Common().Args {
+				if i >= len(f.Params) || !core.IsNilConst(a) {
+					continue
+				}
+				if _, isSlice := f.Params[i].Type().Underlying().(*types.Slice); !isSlice {
+					continue
+				}
+				ck := c.KeyAt(f, fmt.Sprintf("cannot fail when parameter %s is nil", f.Params[i].Name()))
+				if seenCtl[ck] {
+					continue
+				}
+				seenCtl[ck] = true
+				cn, cbad, cat := nilArgCannotFail(c, f, f.Params[i])
+				if cbad != "" {
+					c.Bad(ck, cat, "can return "+cbad+" even when "+f.Params[i].Name()+" is nil")
+				} else {
+					c.Ok(ck, c.FnPos(f), fmt.Sprintf("with the edges refuted by %s==nil removed, the %d reachable return(s) return nil", f.Params[i].Name(), cn))
 				}
 			}
 		}
-		for _, s := range b.Succs {
-			if !prune(b, s) && !seen[s] {
-				seen[s] = true
-				st = append(st, s)
+	}
+	return true
+}
+
+// nilArgCannotFail: when fn is called with nil for param, does every return that
+// can execute yield a nil error? Branch conditions that follow from the hypothesis
+// (nil tests of the parameter, len/cap of it, comparisons and boolean combinations
+// of those — written in the condition, hoisted into a local or merged by && / ||)
+// are decided and the refuted edges removed (core.NilArgEval); the error operands
+// of the surviving returns are read through the surviving Phi edges.
+// Returns the number of surviving returns and, if one may fail, its description.
+func nilArgCannotFail(c *Ctx, fn *ssa.Function, param *ssa.Parameter) (n int, bad, at string) {
+	ev := core.NewNilArgEval(fn, param)
+	uidx := core.ErrorResultIndex(fn)
+	for _, r := range core.Returns(fn) {
+		if !ev.Reachable(r.Block()) {
+			continue
+		}
+		n++
+		for _, v := range core.ReturnOperand(r, uidx) {
+			if v == nil {
+				continue
+			}
+			for _, l := range ev.Leaves(v) {
+				if core.ClassifyNil(l, r) != core.IsNil {
+					return n, valueLabel(l), c.Pos(r)
+				}
 			}
 		}
 	}
-	c.OkN(key, c.FnPos(rh), fmt.Sprintf("RestoreHeaderReferences returns Header.Update(_, nil); with the edges refuted by fields==nil removed, the %d reachable return(s) of Header.Update return nil", n), n)
-	return true
+	return n, "", ""
 }
 
 func ruleIso5(c *Ctx) {
